@@ -632,6 +632,25 @@ pub fn c05_units() -> Vec<Unit> {
     out.push(mk_unit("new_unchecked:flag+feature:unsafe-block".into(), ALL, format!("{header}{}pub fn a() {{ let _t = unsafe {{ T::new_unchecked(-1) }}; }}\n", module(nu_decl_flag)), nu_decl_flag.into(), Expect::Accept, &[], true));
     out.push(mk_unit("new_unchecked:flag+feature:no-unsafe".into(), ALL, format!("{header}{}pub fn a() {{ let _t = T::new_unchecked(-1); }}\n", module(nu_decl_flag)), nu_decl_flag.into(), Expect::Reject, &["E0133"], true));
     out.push(mk_unit("new_unchecked:flag+feature:fn-pointer-coercion".into(), ALL, format!("{header}{}pub fn a() {{ let f: fn(i32) -> T = T::new_unchecked; let _t = f(-1); }}\n", module(nu_decl_flag)), nu_decl_flag.into(), Expect::Reject, &["E0308"], true));
+    // every shape of declaration that can carry the flag: the generated function must be `unsafe` in all of them
+    for (shape, d, ctor_call) in [
+        ("validated", "#[nutype(new_unchecked, validate(greater = 0))]\npub struct T(i32);", "T::new_unchecked(-1)"),
+        ("sanitize-only", "#[nutype(new_unchecked, sanitize(with = |x| x.clamp(0, 9)))]\npub struct T(i32);", "T::new_unchecked(-1)"),
+        ("no-guards", "#[nutype(new_unchecked)]\npub struct T(u8);", "T::new_unchecked(1)"),
+        ("string-sanitize-only", "#[nutype(new_unchecked, sanitize(trim, lowercase))]\npub struct T(String);", "T::new_unchecked(String::from(\" X \"))"),
+        ("string-validated", "#[nutype(sanitize(trim), new_unchecked, validate(not_empty))]\npub struct T(String);", "T::new_unchecked(String::new())"),
+        ("float-finite", "#[nutype(validate(finite), new_unchecked, derive(PartialEq, Eq, PartialOrd, Ord))]\npub struct T(f64);", "T::new_unchecked(f64::NAN)"),
+        ("other-sanitize-only", "#[nutype(new_unchecked, sanitize(with = |mut v| { v.sort(); v }))]\npub struct T(Vec<i32>);", "T::new_unchecked(vec![2, 1])"),
+        ("other-validated", "#[nutype(new_unchecked, validate(predicate = |v| !v.is_empty()))]\npub struct T(Vec<i32>);", "T::new_unchecked(vec![])"),
+        ("generic", "#[nutype(new_unchecked, sanitize(with = |mut v| { v.sort(); v }))]\npub struct T<E: Ord>(Vec<E>);", "T::<i32>::new_unchecked(vec![2, 1])"),
+        ("const-fn-validated", "#[nutype(const_fn, new_unchecked, validate(greater = 0))]\npub struct T(i32);", "T::new_unchecked(-1)"),
+        ("const-fn-no-guards", "#[nutype(const_fn, new_unchecked)]\npub struct T(i32);", "T::new_unchecked(-1)"),
+        ("custom-validated", "#[nutype(new_unchecked, validate(with = check, error = CustomErr))]\npub struct T(i32);\nfn check(_x: &i32) -> Result<(), CustomErr> { Ok(()) }", "T::new_unchecked(-1)"),
+    ] {
+        let module = format!("pub mod m {{\n    use nutype::nutype;\n    use crate::prelude::*;\n    {}\n}}\nuse m::*;\n", d.replace('\n', "\n    "));
+        out.push(mk_unit(format!("new_unchecked:shape:{shape}:unsafe-block"), ALL, format!("{header}{module}pub fn a() {{ let _t = unsafe {{ {ctor_call} }}; }}\n"), d.to_string(), Expect::Accept, &[], true));
+        out.push(mk_unit(format!("new_unchecked:shape:{shape}:no-unsafe"), ALL, format!("{header}{module}pub fn a() {{ let _t = {ctor_call}; }}\n"), d.to_string(), Expect::Reject, &["E0133"], true));
+    }
     out.push(mk_unit("new_unchecked:no-flag+feature".into(), ALL, format!("{header}{}pub fn a() {{ let _t = unsafe {{ T::new_unchecked(-1) }}; }}\n", module(nu_decl_noflag)), nu_decl_noflag.into(), Expect::Reject, &["E0599"], true));
     out.push(mk_unit("new_unchecked:flag+no-feature".into(), &["serde"], format!("{header}{}pub fn a() {{ }}\n", module(nu_decl_flag)), nu_decl_flag.into(), Expect::Reject, &["feature `new_unchecked`"], true));
     out.push(mk_unit("new_unchecked:no-flag+no-feature".into(), &["serde"], format!("{header}{}pub fn a() {{ let _t = unsafe {{ T::new_unchecked(-1) }}; }}\n", module(nu_decl_noflag)), nu_decl_noflag.into(), Expect::Reject, &["E0599"], true));
